@@ -6,9 +6,12 @@ cd /repo || exit 2
 if ! git diff --quiet; then echo "/repo has uncommitted changes" >&2; exit 2; fi
 git apply "$PATCH" || { echo "patch does not apply" >&2; exit 2; }
 cd /verif
-VERIF_DIR=/verif ./run.sh "$ID" "$TIER" 2>&1 | cut -c1-500 | head -${LINES_MAX:-14}
-rc=${PIPESTATUS[0]}
+OUT=$(mktemp /dev/shm/try-seed.XXXXXX)
+VERIF_DIR=/verif ./run.sh "$ID" "$TIER" >"$OUT" 2>/dev/null
+rc=$?
+grep -v "^log4rs:" "$OUT" | cut -c1-500 | head -${LINES_MAX:-14}
+rm -f "$OUT"
 git -C /repo checkout -- .
-git -C /repo status --short | grep -v '^??' 
-# restore evidence of the unchanged tree later by re-running the check
+git -C /repo status --short | grep -v '^??'
+# the evidence file now describes the changed tree: re-run the check on the unchanged tree before committing evidence
 echo "exit=$rc"
